@@ -335,6 +335,14 @@ fn main() {
                 Ok(v) => v,
                 Err(e) => json!({"panic": panic_msg(e)}),
             },
+            "wordstart" => match catch_unwind(AssertUnwindSafe(|| {
+                let ws = x::completers::escaped_word_start(&line);
+                let chars_before = if ws <= line.len() && line.is_char_boundary(ws) { line[..ws].chars().count() as i64 } else { -1 };
+                json!({"start_bytes": ws, "start": chars_before})
+            })) {
+                Ok(v) => v,
+                Err(e) => json!({"panic": panic_msg(e)}),
+            },
             "tokens" => match catch_unwind(AssertUnwindSafe(|| {
                 let li = x::parser_line::parse_line(&line);
                 json!({"tokens": toks(&li.tokens), "complete": li.is_complete, "arith": x::tools::is_arithmetic(&line)})
